@@ -379,7 +379,7 @@ pub fn run(a: &Args) {
         Cfg { headers: vec![("X-Test-A".into(), "1".into()), ("x-custom".into(), "v w; z=1".into())], auth: Some(("alice".into(), "s3cr3t:with:colons".into())), timeout_ms: Some(8000) },
         Cfg { headers: vec![("Accept-Language".into(), "de".into())], auth: Some(("bob".into(), "".into())), timeout_ms: None },
         Cfg { headers: vec![("Cookie".into(), "a=b; c=d".into()), ("X-Empty".into(), "".into()), ("x-UPPER-Mixed".into(), "Value With Spaces".into())],
-              auth: Some(("üser".into(), "p%25ä✓ /+=".into())), timeout_ms: Some(9000) },
+              auth: Some((" üser ".into(), "\tp%25ä✓ /+= ".into())), timeout_ms: Some(9000) },   // white space at both ends belongs to the credentials
     ];
     let targets4 = [
         format!("http://127.0.0.1:{}/printers/x?q=1", p4),
@@ -565,10 +565,12 @@ pub fn run(a: &Args) {
             for round in 0..5usize {
                 // the peer keeps the connection alive (as CUPS does); the first two sends are driven by a second,
                 // single-threaded runtime that stays alive but idle afterwards
-                cx.use_alt = round < 2;
-                // in rounds 1 and 3 the caller drops the response without reading its (large) document
-                cx.drop_early = round % 2 == 1;
-                let plans = (1..=5u32).map(|i| mk_plan(i, ["length-ka", "chunked-ka", "length-ka", "close"][(round + i as usize) % 4], 200, None, false, 0, round + i as usize, if round % 2 == 1 { 300_000 } else { 10 * round + i as usize })).collect();
+                // round 0 on the second runtime (answer read to the end, connection kept alive), round 1 on the main runtime
+                // (a pooled connection would now belong to an idle driver), round 2 drops the response without reading
+                // its large document, round 3 on the second runtime again, round 4 on the main one
+                cx.use_alt = round == 0 || round == 3;
+                cx.drop_early = round == 2;
+                let plans = (1..=5u32).map(|i| mk_plan(i, ["length-ka", "chunked-ka", "length-ka", "close"][(round + i as usize) % 4], 200, None, false, 0, round + i as usize, if round == 2 { 300_000 } else { 10 * round + i as usize })).collect();
                 cx.exchange("the same client object again, request-id 1 as the builders give it", vec![(1, kind, targets4[1].clone(), cfgs[1].clone(), pattern(100 + 1000 * round, round as u32), round)], plans, None, false);
             }
             cx.reuse = None;
